@@ -161,13 +161,13 @@ def layout_sites(f: Func, p1: str, p2: str):
                         o2 = owner_of(c.generators[0].iter, {p1: 1, p2: 2})
                         if grow and len(o1) == 1 and len(o2) == 1 and o1 != o2:
                             fills.append((n, next(iter(o1)), next(iter(o2))))
-        if isinstance(n, ast.Assign) and len(n.targets) == 1 and isinstance(n.targets[0], ast.Name) and "shape" in n.targets[0].id:
-            e = n.value
-            while isinstance(e, ast.Call) and dotted(e.func) in ("tuple", "list") and e.args:
-                e = e.args[0]
-            if isinstance(e, ast.BinOp) and isinstance(e.op, ast.Add):
-                o1 = owner_of(e.left, {p1: 1, p2: 2})
-                o2 = owner_of(e.right, {p1: 1, p2: 2})
+        # the shape that labels the filled list: <operand A's shape / outcome counts> + <operand B's>, wherever it is written
+        # (bound to a local, or handed to the constructor directly)
+        if isinstance(n, ast.BinOp) and isinstance(n.op, ast.Add):
+            lt, rt = unparse(n.left), unparse(n.right)
+            if all(("shape" in t_ or "outcomes" in t_) for t_ in (lt, rt)):
+                o1 = owner_of(n.left, {p1: 1, p2: 2})
+                o2 = owner_of(n.right, {p1: 1, p2: 2})
                 if len(o1) == 1 and len(o2) == 1 and o1 != o2:
                     shapes.append((n, next(iter(o1)), next(iter(o2))))
     # copy + extend idiom: x = copy(p1.nums); x.extend(p2.nums)
